@@ -123,6 +123,29 @@ fn dispatch(args: &[String], tier: common::Tier) -> i32 {
         "C12" => c12::run(&Ctx::new("C12", tier).reduced().with_filter(|k| k.contains(".image.") || k.contains(".size.") || k.starts_with("panic|"))),
         "C13" => c13::run(&Ctx::new("C13", tier)),
         "worker" => e4::worker_main(&c14::run_entry),
+        "cpc-craft" => {
+            // debugging aid: re-encode the table section of a sketch of `count` diagonal pairs
+            let lg_k: u8 = args.get(2).and_then(|s| s.parse().ok()).unwrap_or(4);
+            let count: usize = args.get(3).and_then(|s| s.parse().ok()).unwrap_or(100);
+            let row: u32 = args.get(4).and_then(|s| s.parse().ok()).unwrap_or(0);
+            let col: u8 = args.get(5).and_then(|s| s.parse().ok()).unwrap_or(56);
+            let runs = c05::default_runs(lg_k);
+            let d = cpcm::Duo::from_pairs(lg_k, &runs[3].1[..count]);
+            let img = d.s.serialize();
+            let p = obs::cpc_preamble(&img).unwrap();
+            println!("preamble {:?}", p);
+            let stream = spec_cpc::encode_pairs(&[(row, col)], lg_k).unwrap();
+            let has_w = p.flags & 16 != 0;
+            let len_off = if has_w { 16 + if p.flags & 4 != 0 { 16 } else { 0 } } else { 12 };
+            let mut b = img[..p.sv_off].to_vec();
+            if has_w { b[12..16].copy_from_slice(&1u32.to_le_bytes()); } else { b[8..12].copy_from_slice(&1u32.to_le_bytes()); }
+            b[len_off..len_off + 4].copy_from_slice(&((stream.len() / 4) as u32).to_le_bytes());
+            b.extend_from_slice(&stream);
+            println!("image {}", common::hex(&b));
+            let r = common::catch(|| datasketches::cpc::CpcSketch::deserialize(&b).map(|s| s.num_coupons()));
+            println!("{:?}", r.map_err(|p| p.message));
+            0
+        }
         "c05-time" => {
             c05::time_runs(&Ctx::new("C05", tier), args.get(2).and_then(|s| s.parse().ok()).unwrap_or(10));
             0
